@@ -362,6 +362,13 @@ class Ctx:
             + (" && lake env leanchecker <property modules and every project module they import>"
                if self.tier == "thorough" else ""))
         self.cov["trusted_base"] = trusted
+        # which tree was checked: the model is validated against /repo's CURRENT working tree on every run
+        try:
+            head = run(["git", "-C", "/repo", "rev-parse", "--short", "HEAD"]).stdout.strip()
+            dirty = [l[3:] for l in run(["git", "-C", "/repo", "status", "--porcelain"]).stdout.splitlines()]
+            self.cov["repo_state"] = {"head": head, "modified_files": dirty[:20]}
+        except Exception:  # noqa: BLE001
+            pass
         self.cov["histograms"] = self.hist
         self.cov["known_findings_hit"] = self.known_hits
         if self.notes:
